@@ -2,7 +2,7 @@
 // (DESIGN 5 C09).
 //
 // States: distinct canonical expressions reachable with <= n constructor calls add(a,b), mul(a,b), pow(a,k),
-// k in {-3,-2,-1,2,3,4}, from the leaves {x, y, 1, -2, 1/2, I, f(x), sqrt(2), sqrt(1+x)}.
+// k in {-3,-2,-1,2,3,4}, from the leaves {x, y, 1, -2, 1/2, I, f(x), sqrt(2), sqrt(1+x), x+1/x, y+1/x}.
 // Oracle: every recipe is evaluated in an exact model: fractions of dictionaries with Gaussian-rational (mpq)
 // coefficients over the generators x, y, f(x), s = sqrt(2) (s^2 = 2) and r = sqrt(1+x) (r^2 = 1+x); recipes that never
 // invert a sum stay Laurent polynomials.  expand(e) is read back into the same kind of object by an independent tree
@@ -773,7 +773,12 @@ int main(int argc, char **argv)
                               {"I", I, cst(GQ{0, 1})},
                               {"f(x)", FX, gen1(2)},
                               {"sqrt(2)", sqrt(integer(2)), gen1(3)},
-                              {"sqrt(1+x)", sqrt(ONE_PLUS_X), gen1(4)}};
+                              {"sqrt(1+x)", sqrt(ONE_PLUS_X), gen1(4)},
+                              // structured leaves: sums whose cross products cancel to a NUMBER (x * 1/x), the special branch of
+                              // mul_expand_two / pow_expand; from atoms they need 5-7 operations before a coefficient and an outer sum
+                              // can be wrapped around their product (added after seeded change C09 escaped the atom-only alphabet)
+                              {"x+1/x", add(X, pow(X, integer(-1))), m_add(gen1(0), m_pow(gen1(0), -1))},
+                              {"y+1/x", add(Y, pow(X, integer(-1))), m_add(gen1(1), m_pow(gen1(0), -1))}};
     for (auto &l : leaves) {
         bool fresh;
         SS.add(l.e, l.name, 0, &fresh);
@@ -905,7 +910,7 @@ int main(int argc, char **argv)
     Rn.states = SS.size();
     Rn.transitions = Rn.evaluations;
     Rn.bound_completed = bound;
-    Rn.rule = "E1: leaves {x, y, 1, -2, 1/2, I, f(x), sqrt(2), sqrt(1+x)}; operations add(a,b), mul(a,b), pow(a,k) k in {-3,-2,-1,2,3,4}; states "
+    Rn.rule = "E1: leaves {x, y, 1, -2, 1/2, I, f(x), sqrt(2), sqrt(1+x), x+1/x, y+1/x}; operations add(a,b), mul(a,b), pow(a,k) k in {-3,-2,-1,2,3,4}; states "
               "de-duplicated by structural key; every state (every transition in the last layer) e is expanded and checked: (1) value: "
               "expand(e) read back by an independent tree walk into an exact fraction of dictionaries (mpq Gaussian coefficients, "
               "sqrt(2)^2=2, sqrt(1+x)^2=1+x) equals the exact model of the recipe (cross-multiplication); (2) completeness: no Add stored as a "
